@@ -402,3 +402,47 @@ func H13inc() {
 	}
 	check(em.Dir["own"] != nil && len(em.Dir) == 3, "nothing else")
 }
+
+// H13idrev: two revisions of a module, each including its own revision of a submodule that holds
+// the module's identities, and an importer without revision-date: what the importer sees is what
+// it sees when the identities are written in the module bodies (include == inline), i.e. the
+// latest revision's. Load order symbolic.
+func H13idrev() {
+	m20 := `module m { namespace "urn:m"; prefix m; revision 2020-01-01; include s { revision-date 2020-01-01; } leaf a { type string; } }`
+	s20 := `submodule s { belongs-to m { prefix m; } revision 2020-01-01; identity kind; identity old { base kind; } }`
+	m21 := `module m { namespace "urn:m"; prefix m; revision 2021-01-01; include s { revision-date 2021-01-01; } leaf a { type string; } }`
+	s21 := `submodule s { belongs-to m { prefix m; } revision 2021-01-01; identity kind; identity extra { base kind; } }`
+	u := `module u { namespace "urn:u"; prefix u; import m { prefix m; } identity mine { base m:kind; } leaf l { type identityref { base m:kind; } } }`
+	f20 := `module m { namespace "urn:m"; prefix m; revision 2020-01-01; identity kind; identity old { base kind; } leaf a { type string; } }`
+	f21 := `module m { namespace "urn:m"; prefix m; revision 2021-01-01; identity kind; identity extra { base kind; } leaf a { type string; } }`
+	split := []string{m20, s20, m21, s21, u}
+	orders := [][]int{{0, 1, 2, 3, 4}, {4, 3, 2, 1, 0}, {2, 3, 0, 1, 4}, {1, 3, 4, 0, 2}}
+	o := orders[symChoice(len(orders))]
+	hNoFiles()
+	msS := NewModules()
+	for _, k := range o {
+		check(msS.Parse(split[k], "f"+string([]byte{'0' + byte(k)})+".yang") == nil, "the split texts load")
+	}
+	msF, lf := hLoad(f20, f21, u)
+	check(len(lf) == 0, "the flat texts load")
+	es, ef := msS.Process(), msF.Process()
+	check(len(es) == 0 && len(ef) == 0, "both sets process")
+	if len(es) > 0 || len(ef) > 0 {
+		return
+	}
+	reach("compared")
+	us, uf := ToEntry(msS.Modules["u"]), ToEntry(msF.Modules["u"])
+	check(hDumpTree(us.Dir["l"], "") == hDumpTree(uf.Dir["l"], ""), "identities contributed by an included submodule are seen by an importer exactly as if they were written in the module (the latest revision's)")
+	ls := us.Dir["l"].Type.IdentityBase
+	check(ls != nil && RootNode(ls) == msS.SubModules["s@2021-01-01"], "an import without revision-date denotes the latest revision, also for the identities of its submodule")
+	n := 0
+	for _, v := range ls.Values {
+		if v.Name == "extra" || v.Name == "mine" {
+			n++
+		}
+	}
+	// (whether the older revision's own derivations belong in this list is a question of how two
+	// loaded revisions of one module relate - the library files identities by module name - and is
+	// the same for the split and the unsplit modules; not asked here)
+	check(n == 2, "the identity lists the derivations of the revision it belongs to and of its importers")
+}
